@@ -254,6 +254,66 @@ class Bus:
             self.fails.append(("logger_one_row_per_period", dict(times=ts[-6:], due=self.ref_next_row, now=self.until, note="row overdue")))
 
 
+LONG_DTS = [None, 1.0 / 3, 1.0 / 128, 0.1, 1.0 / 300, 1.0 / 30]  # None: the logger's default period
+
+
+def explore_longlog(case):
+    """long logging histories (hundreds of rows) and logging periods that are not a whole number of microseconds: every row is judged by the
+    same observer as in the word exploration (row time = current time, due exactly one period after the previous row, latest message per
+    topic), with periodic publishers on integer periods and a relay / forwarding subscriber set"""
+    tier, di, subs = case["tier"], case["dt_index"], case["subs"]
+    res = core.Result()
+    rows_wanted = 2000 if tier == "thorough" else 700
+    top = dict(subs=list(subs), logger=True, nodes=[True, False], periods=(1, 2))
+    b = Bus(top, None)
+    try:
+        c = b.core
+        dt = LONG_DTS[di]
+        if dt is not None:
+            c.init_params()
+            c.set_param("logger/dt", dt)
+            b.ref_logdt = dt
+        else:
+            dt = b.ref_logdt
+        # publishers on integer periods would publish only a few times during 700 default periods: add fast publishers on both topics
+        fast = 7 * dt
+        simpy.Process(c, b._periodic("a", fast))
+        simpy.Process(c, b._periodic("b", 3 * fast))
+        b.until = rows_wanted * dt
+        c.run(until=b.until)
+        b.check_rows()
+        b.check_quiescent("after long run")
+    except Exception as ex:
+        b.fails.append(("no_exception", dict(error="%s: %s" % (type(ex).__name__, str(ex)[:200]))))
+    finally:
+        sched.ControlledCore.chooser = None
+        sched.ControlledCore.observer = None
+    n = len(b.logger.data_list)
+    res.count("evaluations", n)
+    res.count("states", n)
+    res.count("transitions", n)
+    res.count("traces_validated_against_impl", n)
+    res.counters["max_depth"] = n
+    res.nontrivial.add(hash((di, tuple(subs))))
+    res.outcomes.add(hash((n, tuple(r["a"] for r in b.ref_rows[-5:]))))
+    if n < rows_wanted - 2 or n > rows_wanted + 2:
+        b.fails.append(("logger_one_row_per_period", dict(rows=n, expected=rows_wanted, period=LONG_DTS[di])))
+    for clause, detail in b.fails[:3]:
+        res.fail(site="uros", clause=clause, cls="long_log", detail=dict(detail, period=LONG_DTS[di], subs=list(subs)), sub="longlog", case=case)
+    res.samples.append(dict(long_log_rows=n, period=LONG_DTS[di]))
+    return res
+
+
+class _LongLog:
+    chunks = 1
+
+    def cases(self, tier, seed):
+        return [dict(sub="longlog", tier=tier, dt_index=i, subs=s) for i in range(len(LONG_DTS)) for s in ((), (0, 2, 3))]
+
+    def run(self, case):
+        return explore_longlog(case)
+
+
 def run_word(top, word, chooser=None):
     b = Bus(top, chooser)
     try:
@@ -543,5 +603,6 @@ class _Est:
         return explore_est(case)
 
 
-SUBCHECKS = {"bus": _Bus(), "est": _Est(), "estparams": _EstP()}
-REPLAY = {"bus": lambda c: explore_bus(c).fails, "est": lambda c: explore_est(c).fails, "estparams": lambda c: explore_estparams(c).fails}
+SUBCHECKS = {"bus": _Bus(), "est": _Est(), "estparams": _EstP(), "longlog": _LongLog()}
+REPLAY = {"bus": lambda c: explore_bus(c).fails, "est": lambda c: explore_est(c).fails, "estparams": lambda c: explore_estparams(c).fails,
+          "longlog": lambda c: explore_longlog(c).fails}
